@@ -67,7 +67,65 @@ def _extract():
     if not g or not re.search(r'supla_rs_cfg\[a\]\.stop_time\s*=\s*supla_esp_gpio_init_time\s*;', g): errs.append('gpio_init no longer stamps stop_time with the init time')
     return v, errs
 
+# ---- call sites (G for C08_routing): who can write a relay pin, and through which entry points --------------
+def _functions(src):
+    """(name, body) of the top-level function definitions of a preprocessed C file"""
+    depth = 0; i = 0; n = len(src); hdr_start = 0; bstart = 0; hdr = ''
+    while i < n:
+        c = src[i]
+        if c == '"' or c == "'":
+            q = c; i += 1
+            while i < n and src[i] != q: i += 2 if src[i] == '\\' else 1
+        elif c == '{':
+            if depth == 0: bstart = i; hdr = src[hdr_start:i]
+            depth += 1
+        elif c == '}':
+            depth -= 1
+            if depth == 0:
+                h = hdr.rstrip()
+                if h.endswith(')'):
+                    d = 0; j = len(h) - 1
+                    while j >= 0:
+                        if h[j] == ')': d += 1
+                        elif h[j] == '(':
+                            d -= 1
+                            if d == 0: break
+                        j -= 1
+                    m = re.search(r'([A-Za-z_]\w*)\s*$', h[:j])
+                    if m and '=' not in h[:j].split('\n')[-1]: yield m.group(1), src[bstart:i + 1]
+                hdr_start = i + 1
+        elif c == ';' and depth == 0: hdr_start = i + 1
+        i += 1
+
+_CS_FILES = ['supla_esp_gpio.c', 'supla_esp_rs_fb.c', 'supla_esp_devconn.c', 'supla_esp_input.c', 'supla_esp_countdown_timer.c',
+             'supla_esp_cfgmode.c', 'supla_esp_state.c', 'supla_esp_cfg.c', 'supla_update.c', 'supla_esp_wifi.c', 'supla_esp_dns_client.c', 'uptime.c']
+# the routing model of coq/C08/Model.v (route_server / route_input + countdown finish) is complete iff these are the callers
+_CS_EXPECTED = {
+    'GPIO_OUTPUT_SET': ['gpio:supla_esp_gpio_set_hi'],
+    'gpio16_output_set': ['gpio:supla_esp_gpio_set_hi'],
+    'supla_esp_gpio_set_hi': ['gpio:supla_esp_gpio_relay_hi'],
+    'supla_esp_gpio_relay_hi': ['devconn:_supla_esp_channel_set_value', 'gpio:supla_esp_gpio_init', 'gpio:supla_esp_gpio_relay_switch', 'rs_fb:supla_esp_gpio_rs_set_relay'],
+    '_supla_esp_channel_set_value': ['devconn:supla_esp_channel_set_value', 'devconn:supla_esp_devconn_on_countdown_timer_finish'],
+    'supla_esp_gpio_relay_switch': ['gpio:supla_esp_gpio_relay_switch_by_input'],
+    'supla_esp_gpio_relay_switch_by_input': ['gpio:supla_esp_gpio_on_input_active', 'gpio:supla_esp_gpio_on_input_inactive'],
+    'supla_esp_countdown_timer_countdown': ['gpio:supla_esp_gpio_relay_set_duration_timer'],
+    'supla_esp_gpio_relay_set_duration_timer': ['devconn:supla_esp_channel_config_result', 'devconn:supla_esp_channel_set_value', 'gpio:supla_esp_gpio_init', 'gpio:supla_esp_gpio_relay_switch'],
+}
+def _callsites():
+    res = {c: set() for c in _CS_EXPECTED}; errs = []
+    for f in _CS_FILES:
+        src = _pp(f)
+        if not src: errs.append('cannot preprocess %s' % f); continue
+        for name, body in _functions(src):
+            for c in res:
+                if name != c and re.search(r'(?<![\w])%s\s*\(' % re.escape(c), body[1:]):
+                    res[c].add('%s:%s' % (f[:-2].replace('supla_esp_', ''), name))
+    for c, exp in _CS_EXPECTED.items():
+        if sorted(res[c]) != exp: errs.append('callers of %s changed: %s (expected %s)' % (c, sorted(res[c]), exp))
+    return errs
+
 _vals, _errs = _extract()
+_errs = _errs + _callsites()
 _pre = ('#include <stddef.h>\n#include <supla_esp.h>\n#include <supla_esp_gpio.h>\n#include <supla_esp_rs_fb.h>\n'
         + ''.join('#error RsSpacingConsts: %s\n' % e.replace('\n', ' ') for e in _errs))
 _names = ['RS_DELAY_THRESHOLD', 'RS_SETTLE_US', 'RS_ORDER_GUARD_STOP', 'RS_ORDER_GUARD_START', 'RELAY_PRE_US', 'RELAY_RETRY_US', 'RELAY_POST_US']
